@@ -291,6 +291,13 @@ func (e *Engine) intrinsic(st *State, f *Frame, x ssa.Value, callee *ssa.Functio
 		if name == "Clone" {
 			return ret(args[0]) // strings are immutable: a clone is indistinguishable from the original
 		}
+		if name == "copyCheck" {
+			return ret(nil) // (*strings.Builder).copyCheck: self-pointer bookkeeping only
+		}
+	case "internal/abi":
+		if name == "NoEscape" || name == "Escape" {
+			return ret(args[0])
+		}
 	case "math/bits":
 		if r := e.mathBits(name, args); r != nil {
 			return ret(r)
@@ -539,15 +546,31 @@ func (e *Engine) bytealg(st *State, name string, args []Val) (Val, bool) {
 		}
 		return Scalar{r}, true
 	case "MakeNoZero":
-		n, ok := constInt(args[0])
+		nt, ok := scalarOf(args[0])
 		if !ok {
-			return Poison{"MakeNoZero symbolic"}, true
+			return Poison{"MakeNoZero"}, true
+		}
+		n := 0
+		if nt.IsConst() {
+			n = int(nt.val)
+		} else if _, h := b.Rng(nt); h <= 1<<16 {
+			n = int(h)
+		} else {
+			n = 64
+			if e.cfg != nil && e.cfg.MaxAlloc > 0 {
+				n = e.cfg.MaxAlloc
+			}
+			tooBig := b.Not(b.Ule(nt, b.BV(64, uint64(n))))
+			e.newObl(oblPoison, st, tooBig, fmt.Sprintf("allocation above the modelled maximum %d", n), "bytealg.MakeNoZero")
+			e.addPC(st, b.Not(tooBig))
 		}
 		elems := make([]Val, n)
 		for i := range elems {
 			elems[i] = Scalar{b.BV(8, 0)}
 		}
-		return e.newArray(st, elems, false), true
+		sl := e.newArray(st, elems, false)
+		sl.len, sl.cap = nt, nt
+		return sl, true
 	case "Equal":
 		x, ok1 := args[0].(SliceV)
 		y, ok2 := args[1].(SliceV)
